@@ -196,12 +196,12 @@ Proof. eexists. split; [vm_compute; reflexivity|]. repeat split. Qed.
 (* The models are the code: read from the AST of /repo on every run (harness/c12.py source_params, fail closed).
    FairLock.acquire: the fast path is refused when somebody queues; a task leaving the queue removes ITS OWN waiter
    (`self._waiters.remove(waiter)`, what fl_resume / fl_cancel do); a cancelled waiter re-wakes the head when the lock is
-   free; _wake_up_first wakes `_waiters[0]`.  AsyncTLSStreamTransport: send_all_from_iterable puts the whole packet in the
+   free and wakes NOBODY while the lock is held (fl_cancel's `if fl_locked`: fairlock_mutex rests on it); _wake_up_first wakes `_waiters[0]`.  AsyncTLSStreamTransport: send_all_from_iterable puts the whole packet in the
    backlog before its first await; every read of the write BIO and every send on the wrapped transport happens under
    the transport send lock (what Conc/TlsSend.v's flush does). *)
 Theorem models_transcribe_the_source :
   fairlock_fast_path_checks_queue = true /\ fairlock_leave_removes_own_waiter = true /\
-  fairlock_cancel_rewakes_when_free = true /\ fairlock_wakes_the_head = true /\
+  fairlock_cancel_rewakes_when_free = true /\ fairlock_cancel_silent_when_held = true /\ fairlock_wakes_the_head = true /\
   tls_whole_packet_enters_backlog_at_once = true /\ tls_bio_read_under_send_lock = true /\
   tls_transport_send_under_send_lock = true.
 Proof. exact models_transcribe_the_source_proof. Qed.
